@@ -382,27 +382,27 @@ EXT_ZERO_MASK = (0x8000 << 64) | ((1 << 64) - 1)
 TARGETS = {
     # big: byte order of multi-byte fields; pad_default: PADDING default; slot: slot width in target units
     "68000": dict(cpu="68000", syntax="moto", pc="*", gran=1, fam="moto16", big=True, pad_default=True,
-                  has_padding=True, base=0x10000, slot=0x400, maxlen=0x180),
+                  has_padding=True, base=0x10000, slot=0x400, maxlen=0x180, bigmax=0x3c0),
     "6809": dict(cpu="6809", syntax="moto", pc="*", gran=1, fam="moto8+16", big=True, pad_default=False,
-                 has_padding=True, base=0x1000, slot=0x200, maxlen=0xc0),
+                 has_padding=True, base=0x1000, slot=0x400, maxlen=0xc0, bigmax=0x3c0),
     "6502": dict(cpu="6502", syntax="moto", pc="*", gran=1, fam="moto8", big=False, pad_default=False,
-                 has_padding=False, base=0x1000, slot=0x200, maxlen=0xc0),
+                 has_padding=False, base=0x1000, slot=0x400, maxlen=0xc0, bigmax=0x3c0),
     "z80": dict(cpu="z80", syntax="intel", pc="$", gran=1, fam="intel", big=False, pad_default=False,
-                has_padding=False, base=0x1000, slot=0x200, maxlen=0xc0),
+                has_padding=False, base=0x1000, slot=0x400, maxlen=0xc0, bigmax=0x3c0),
     "8086": dict(cpu="8086", syntax="intel", pc="$", gran=1, fam="intel", big=False, pad_default=False,
-                 has_padding=False, base=0x1000, slot=0x200, maxlen=0xc0),
+                 has_padding=False, base=0x1000, slot=0x400, maxlen=0xc0, bigmax=0x3c0),
     "8051": dict(cpu="8051", syntax="intel", pc="$", gran=1, fam="intel", big=False, pad_default=False,
-                 has_padding=False, has_bigendian=True, base=0x1000, slot=0x200, maxlen=0xc0),
+                 has_padding=False, has_bigendian=True, base=0x1000, slot=0x400, maxlen=0xc0, bigmax=0x3c0),
     "msp430": dict(cpu="msp430", syntax="intel", pc="$", gran=1, fam="msp", big=False, pad_default=False,
-                   has_padding=True, base=0x1000, slot=0x200, maxlen=0xc0),
+                   has_padding=True, base=0x1000, slot=0x400, maxlen=0xc0, bigmax=0x3c0),
     "16c84": dict(cpu="16c84", syntax="moto", pc="*", gran=2, fam="pic", big=False, pad_default=False,
                   has_padding=False, base=0x10, slot=0x18, maxlen=0xc, minroom=5),
     "avr": dict(cpu="atmega128", syntax="c", pc="*", gran=2, fam="avr", big=False, pad_default=False,
-                has_padding=False, has_packing=True, base=0x100, slot=0x100, maxlen=0x60),
+                has_padding=False, has_packing=True, base=0x100, slot=0x200, maxlen=0x60, bigmax=0x1e0),
     "cop8": dict(cpu="cop87l84", syntax="c", pc=".", gran=1, fam="intel", big=False, pad_default=False,
                  has_padding=False, base=0x100, slot=0xc0, maxlen=0x50),
     "320c25": dict(cpu="320c25", syntax="intel", pc="$", gran=2, fam="ti", big=False, pad_default=False,
-                   has_padding=False, base=0x100, slot=0x100, maxlen=0x60),
+                   has_padding=False, base=0x100, slot=0x200, maxlen=0x60, bigmax=0x1e0),
 }
 
 MOTO_SIZES = {"B": 1, "W": 2, "L": 4, "Q": 8, "C": 2, "S": 4, "D": 8, "X": 12, "": 2}
